@@ -16,6 +16,23 @@ ATOMS_MUTATORS = {"set_cell", "wrap", "translate", "set_positions", "set_scaled_
                   "rattle", "set_atomic_numbers", "set_tags", "set_array", "new_array", "append", "extend", "pop", "set_chemical_symbols",
                   "set_masses", "set_initial_magnetic_moments", "set_initial_charges", "set_constraint", "set_celldisp", "set_velocities",
                   "set_momenta", "sort", "clear", "update", "insert", "remove", "setdefault", "fill", "put", "itemset", "resize", "popitem"}
+# calls whose result does not share memory with their arguments / receiver (everything else applied to an owned
+# value is treated as a possible view or alias of it)
+FRESH_METHODS = {"copy", "deepcopy", "tolist", "item", "sum", "mean", "std", "var", "min", "max", "prod", "dot", "round", "clip", "cumsum",
+                 "nonzero", "argsort", "argmin", "argmax", "all", "any", "tobytes", "repeat", "complete", "lengths", "angles", "cellpar",
+                 "reciprocal", "scaled_positions", "keys", "format", "join", "split", "startswith", "endswith", "count", "index",
+                 "get_positions", "get_cell", "get_atomic_numbers", "get_scaled_positions", "get_chemical_symbols", "get_pbc",
+                 "get_masses", "get_tags", "get_momenta", "get_velocities", "get_initial_charges", "get_initial_magnetic_moments",
+                 "get_center_of_mass", "get_volume", "get_celldisp", "get_cell_lengths_and_angles", "get_global_number_of_atoms",
+                 "get_chemical_formula", "get_distance", "get_distances", "get_all_distances", "get_reciprocal_cell"}
+FRESH_FUNCS = {"len", "range", "isinstance", "int", "float", "str", "bool", "repr", "type", "id", "hash", "print", "copy", "deepcopy",
+               "sum", "min", "max", "abs", "any", "all", "round", "hasattr", "format", "number_to_tuple",
+               # shallow copies: storing into the new container is not a write to the original (its *elements* are not tracked)
+               "dict", "list", "tuple", "set", "sorted", "frozenset"}
+# numpy functions returning (possibly) a view of their first argument; every other `np.*`/`xp.*` call allocates its result
+NP_VIEW_FUNCS = {"asarray", "asanyarray", "ascontiguousarray", "asfortranarray", "reshape", "ravel", "squeeze", "transpose", "swapaxes",
+                 "moveaxis", "rollaxis", "atleast_1d", "atleast_2d", "atleast_3d", "broadcast_to", "expand_dims", "flip", "fliplr",
+                 "flipud", "diagonal", "real", "imag", "view", "split", "array_split", "hsplit", "vsplit", "array"}
 STATE_ATTRS = {"metadata", "_metadata", "array", "_array", "_ensemble_axes_metadata"}
 
 
@@ -40,41 +57,91 @@ class Scan:
         self.fields = set(fields)                   # escaped fields: `self.<f>` is caller-owned
         self.escaped = []                           # fields assigned from an owned name in this function
 
-    def owned_target(self, node):
-        root, attrs = root_chain(node)
-        if root is None or root not in self.owned:
+    def expr_owned(self, node):
+        """does the expression evaluate to (a view of / a reference into) caller-owned data?"""
+        if isinstance(node, ast.Name):
+            return node.id in self.owned and not (node.id == "self" and (self.self_mode or self.fields))
+        if isinstance(node, ast.NamedExpr):
+            if self.expr_owned(node.value):
+                self.owned.add(node.target.id)
+                return True
             return False
-        if self.self_mode and root == "self":
-            return bool(attrs) and attrs[0] in STATE_ATTRS
-        if root == "self" and "self" in self.owned and self.fields:
-            return len(attrs) >= 2 and attrs[0] in self.fields   # a write *through* the stored object, not re-binding the field
-        return True
+        if isinstance(node, ast.Starred):
+            return self.expr_owned(node.value)
+        if isinstance(node, (ast.Attribute, ast.Subscript)):
+            root, attrs = root_chain(node)
+            if root == "self" and "self" in self.owned:
+                if self.self_mode:
+                    return bool(attrs) and attrs[0] in STATE_ATTRS
+                if self.fields:
+                    return bool(attrs) and attrs[0] in self.fields
+            return self.expr_owned(node.value)
+        if isinstance(node, (ast.Tuple, ast.List)):
+            return any(self.expr_owned(e) for e in node.elts)
+        if isinstance(node, ast.IfExp):
+            return self.expr_owned(node.body) or self.expr_owned(node.orelse)
+        if isinstance(node, ast.Call):
+            f = node.func
+            if isinstance(f, ast.Attribute):
+                base = ast.unparse(f.value)
+                if base in ("np", "xp", "numpy", "da", "cp"):
+                    if f.attr not in NP_VIEW_FUNCS:
+                        return False
+                    if f.attr == "array" and not any(k.arg == "copy" and isinstance(k.value, ast.Constant) and k.value.value is False
+                                                     for k in node.keywords):
+                        return False
+                    return bool(node.args) and self.expr_owned(node.args[0])
+                if f.attr in FRESH_METHODS:
+                    return False
+                if f.attr == "astype":
+                    return any(k.arg == "copy" and isinstance(k.value, ast.Constant) and k.value.value is False for k in node.keywords) \
+                        and self.expr_owned(f.value)
+                if self.expr_owned(f.value):
+                    return True            # a method of an owned object may hand back a view (reshape, T, view, get(...), __getitem__ …)
+                return False
+            if isinstance(f, ast.Name):
+                if f.id in FRESH_FUNCS or (f.id[:1].isupper()):   # constructors build new objects (they may *store* the argument: escaped fields)
+                    return False
+                return any(self.expr_owned(a) for a in node.args) or any(self.expr_owned(k.value) for k in node.keywords)
+        return False
+
+    def owned_target(self, node):
+        """a store / delete / in-place target `base.attr`, `base[...]` whose base is caller-owned"""
+        if isinstance(node, (ast.Attribute, ast.Subscript)):
+            root, attrs = root_chain(node)
+            if root == "self" and "self" in self.owned:
+                if self.self_mode:
+                    return bool(attrs) and attrs[0] in STATE_ATTRS
+                if self.fields:
+                    return len(attrs) >= 2 and attrs[0] in self.fields or (
+                        isinstance(node, ast.Subscript) and len(attrs) == 1 and attrs[0] in self.fields)
+                return False
+            return self.expr_owned(node.value)
+        return False
 
     def is_fresh(self, value):
-        if isinstance(value, ast.Call):
-            f = value.func
-            if isinstance(f, ast.Attribute) and f.attr in ("copy", "deepcopy"):
-                return True
-            if isinstance(f, ast.Name) and f.id in ("copy", "deepcopy"):
-                return True
-        return False
+        return not self.expr_owned(value)
 
     def is_alias(self, value):
-        if isinstance(value, (ast.Name, ast.Attribute, ast.Subscript)):
-            root, attrs = root_chain(value)
-            if root in self.owned:
-                if self.self_mode and root == "self":
-                    return bool(attrs) and attrs[0] in STATE_ATTRS
-                return True
-        return False
+        return self.expr_owned(value)
 
     def note(self, node, what):
         self.writes.append(f"{node.lineno}:{what}")
 
     def assign_target(self, t, value, node):
         if isinstance(t, (ast.Tuple, ast.List)):
-            for e in t.elts:
-                self.assign_target(e, None, node)
+            if isinstance(value, (ast.Tuple, ast.List)) and len(value.elts) == len(t.elts):
+                for e, v in zip(t.elts, value.elts):
+                    self.assign_target(e, v, node)
+            else:   # unpacking something owned: every target may refer into it
+                own = value is not None and self.expr_owned(value)
+                for e in t.elts:
+                    if isinstance(e, ast.Starred):
+                        e = e.value
+                    if isinstance(e, ast.Name):
+                        (self.owned.add if own else self.owned.discard)(e.id)
+                    else:
+                        self.assign_target(e, None, node)
             return
         if isinstance(t, (ast.Attribute, ast.Subscript)):
             if self.owned_target(t):
@@ -83,24 +150,14 @@ class Scan:
                     and isinstance(value, ast.Name) and value.id in self.owned and value.id != "self":
                 self.escaped.append(t.attr)
             return
-        if isinstance(t, ast.Name):
-            if value is not None and self.is_fresh(value):
-                self.owned.discard(t.id)
-            elif value is not None and self.is_alias(value):
+        if isinstance(t, ast.Name) and value is not None:
+            if self.expr_owned(value):
                 self.owned.add(t.id)
-            elif value is not None and t.id in self.owned and not any(
-                    isinstance(n, ast.Name) and n.id in self.owned for n in ast.walk(value)):
-                self.owned.discard(t.id)  # rebound to something that does not mention a caller-owned name
+            else:
+                self.owned.discard(t.id)   # rebound to a copy / to something that is not caller-owned
 
     def arg_owned(self, a):
-        if isinstance(a, ast.Name):
-            return a.id in self.owned and not (a.id == "self")
-        if isinstance(a, (ast.Attribute, ast.Subscript)):
-            root, attrs = root_chain(a)
-            if root == "self" and self.fields:
-                return bool(attrs) and attrs[0] in self.fields and len(attrs) == 1
-            return root in self.owned and root != "self"
-        return False
+        return self.expr_owned(a)
 
     def calls(self, node):
         for n in ast.walk(node):
@@ -111,9 +168,10 @@ class Scan:
                 for pname, a in bound:
                     if self.arg_owned(a) and info.get(pname):
                         self.note(n, f"{n.func.id}({ast.unparse(a)[:30]}) -> {info[pname][0]}")
+            if isinstance(n, ast.NamedExpr):
+                self.expr_owned(n)
             if isinstance(n, ast.Call) and isinstance(n.func, ast.Attribute) and n.func.attr in ATOMS_MUTATORS:
-                if self.owned_target(n.func.value) or (isinstance(n.func.value, ast.Name) and n.func.value.id in self.owned
-                                                       and not (self.self_mode and n.func.value.id == "self")):
+                if self.expr_owned(n.func.value):
                     self.note(n, ast.unparse(n.func)[:60] + "(…)")
 
     def block(self, stmts):
@@ -132,6 +190,8 @@ class Scan:
                 self.calls(st.value)
                 if isinstance(st.target, (ast.Attribute, ast.Subscript)) and self.owned_target(st.target):
                     self.note(st, ast.unparse(st.target)[:60] + " op= …")
+                elif isinstance(st.target, ast.Name) and self.expr_owned(st.target):
+                    self.note(st, st.target.id + " op= … (in place on an alias of caller-owned data)")
             elif isinstance(st, ast.Delete):
                 for t in st.targets:
                     if isinstance(t, (ast.Attribute, ast.Subscript)) and self.owned_target(t):
@@ -147,6 +207,17 @@ class Scan:
                 self.owned = after_body | self.owned
             elif isinstance(st, (ast.While, ast.For, ast.AsyncFor)):
                 self.calls(st.test if isinstance(st, ast.While) else st.iter)
+                if not isinstance(st, ast.While):   # loop variables over something owned refer into it
+                    it = st.iter
+                    while isinstance(it, ast.Call) and isinstance(it.func, ast.Name) and it.func.id in ("enumerate", "zip", "reversed", "iter", "list", "tuple", "sorted") and it.args:
+                        if any(self.expr_owned(a) for a in it.args):
+                            break
+                        it = it.args[0]
+                    own = self.expr_owned(it) or (isinstance(it, ast.Call) and any(self.expr_owned(a) for a in it.args)
+                                                  and not (isinstance(it.func, ast.Name) and it.func.id in FRESH_FUNCS))
+                    for nm in ast.walk(st.target):
+                        if isinstance(nm, ast.Name):
+                            (self.owned.add if own else self.owned.discard)(nm.id)
                 before = set(self.owned)
                 self.block(st.body)
                 self.block(st.orelse)
@@ -154,6 +225,8 @@ class Scan:
             elif isinstance(st, (ast.With, ast.AsyncWith)):
                 for it in st.items:
                     self.calls(it.context_expr)
+                    if it.optional_vars is not None and isinstance(it.optional_vars, ast.Name) and self.expr_owned(it.context_expr):
+                        self.owned.add(it.optional_vars.id)
                 self.block(st.body)
             elif isinstance(st, ast.Try):
                 before = set(self.owned)
